@@ -165,6 +165,8 @@ def gen_helper_case(r):
     if hi is None:
         hi = list(lo)
     nb = len(lo)
+    if kind == "mismatch" and n == 0:
+        n = 1       # the model's list-of-rows array cannot carry a column count without a row
     rows = []
     for _ in range(n):
         row = []
